@@ -109,3 +109,48 @@ Definition w_rewait_events : list event := [EvData w_rewait_seg1; EvOp OpReadAny
 Lemma rewait_regression :
   last (snd (toy_run 100 (toy_init 64 true 8190 8190 125 true PChunked 5 1) w_rewait_events)) ONone = ORes (RErr EContentEncoding).
 Proof. vm_compute. reflexivity. Qed.
+
+(* ---- db20ae1: a compressed body never ends in a clean EOF unless the stream-end checks pass ----- *)
+Section StreamEnd.
+  Variable H : Type.
+  Variable heof : H -> bool.
+  Variable hflush : H -> option bytes.
+
+  (* DeflateBuffer.feed_eof on a compressed body that carried data: the reader is given EOF only when the
+     decompressor reports a complete stream (deflate: eof; every coding: not mid_stream) *)
+  Lemma clean_eof_needs_complete : forall s s',
+    db_feed_eof H heof hflush s = (s', None) -> comp (de s) = true -> 0 < d_size (de s) ->
+    heof (d_h (de s)) = true.
+  Proof.
+    intros s s'. unfold db_feed_eof. intros E Hc Hs. rewrite Hc in E. cbn [negb] in E.
+    destruct (hflush (d_h (de s))) as [c|]; [|discriminate].
+    destruct (negb (isnil c)); [discriminate|].
+    replace (0 <? d_size (de s)) with true in E by (symmetry; apply N.ltb_lt; exact Hs). cbn [andb] in E.
+    destruct (heof (d_h (de s))); [reflexivity|discriminate].
+  Qed.
+
+  (* ... and when they do not pass, the call is an error and the reader is left untouched (no EOF) *)
+  Lemma incomplete_is_error : forall s,
+    comp (de s) = true -> 0 < d_size (de s) -> heof (d_h (de s)) = false ->
+    exists e, db_feed_eof H heof hflush s = (s, Some e).
+  Proof.
+    intros s Hc Hs He. unfold db_feed_eof. rewrite Hc. cbn [negb].
+    destruct (hflush (d_h (de s))) as [c|]; [|eexists; reflexivity].
+    destruct (negb (isnil c)); [eexists; reflexivity|].
+    replace (0 <? d_size (de s)) with true by (symmetry; apply N.ltb_lt; exact Hs). rewrite He. cbn. eexists; reflexivity.
+  Qed.
+End StreamEnd.
+
+(* the toy gzip member of w_bomb cut before its terminator and checksum, Content-Length framing complete:
+   used to end in a clean EOF after the decoded prefix (before db20ae1); now the reader gets the payload error *)
+Definition w_trunc : bytes := [31; 200; 65; 200; 66; 200; 67].
+Definition w_trunc_events : list event := [EvData w_trunc; EvOp OpReadAny; EvOp OpReadAny].
+Lemma truncated_regression :
+  let r := toy_run 1000 (toy_init 65536 true 8190 8190 125 true PLength 7 1) w_trunc_events in
+  snd r = [ONone; ORes (RErr EContentEncoding); ORes (RErr EContentEncoding)] /\ reof (re (core (fst r))) = false.
+Proof. vm_compute. split; reflexivity. Qed.
+(* the complete member is still delivered with a clean EOF *)
+Lemma complete_member_clean_eof :
+  let r := toy_run 1000 (toy_init 65536 true 8190 8190 125 true PLength 9 1) [EvData w_bomb; EvOp OpReadAny; EvOp OpReadAny] in
+  last (snd r) ONone = ORes (RData []) /\ lenN (delivered (re (core (fst r)))) = 600 /\ reof (re (core (fst r))) = true /\ rexn (re (core (fst r))) = None.
+Proof. vm_compute. repeat split. Qed.
